@@ -1,2 +1,666 @@
-(* Model for C05 — to be written. Executable definitions only, no proofs. *)
-From WI Require Import Lib.Base Lib.Info.
+(* Model for C05: the three routes by which an ASN.1 object reaches its description.
+
+   - encoding/asn1 (go1.23.5): parseTagAndLength, parseBase128Int, checkInteger, parseInt64,
+     parseBitString, parseObjectIdentifier, parseField, parseSequenceOf, Unmarshal — as an
+     acceptance predicate [accepts schema bytes] for a small schema language;
+   - internal/asn1struct: the repository's key structs as schema terms;
+   - internal/file/der.go: parseDERData (trial order); internal/file/parsers.go: ASN1File,
+     Base64ASN1File, PEMFile; internal/file/pem.go: parsePEMBlock;
+   - internal/file/identifier.go: isBinaryASN1, IsBase64ASN1, IsMixedPEM;
+   - cmd/decipher/main.go: inspectFile / inspectStdin.
+
+   crypto/x509.ParseCertificate, the attribute builders, the generic dump (parseASN1Data),
+   encoding/pem.Decode and the parsers/sniffers of other formats are parameters.
+   Executable definitions only; no proofs here. *)
+From WI Require Import Lib.Base Lib.Info Lib.Strings Model.Base64 Model.Dispatch Model.Render.
+Open Scope N_scope.
+
+(* ================= encoding/asn1 ================= *)
+
+Record hdr := mkhdr { h_class : N; h_comp : bool; h_tag : N; h_len : N }.
+
+(* asn1.go:307 parseBase128Int.  [left] = 5 - shifted. *)
+Fixpoint base128_go (left : nat) (first : bool) (acc : N) (l : bytes) : option (N * bytes) :=
+  match l with
+  | [] => None                                        (* truncated base 128 integer *)
+  | b :: r =>
+      match left with
+      | O => None                                     (* shifted == 5: too large *)
+      | S left' =>
+          if first && (b =? 128) then None            (* not minimally encoded *)
+          else
+            let acc' := acc * 128 + (b mod 128) in
+            if b <? 128 then (if 2147483647 <? acc' then None else Some (acc', r))
+            else base128_go left' false acc' r
+      end
+  end.
+Definition base128 (l : bytes) : option (N * bytes) := base128_go 5 true 0 l.
+
+(* asn1.go:566-588: the long form of the length, [n] bytes *)
+Fixpoint len_bytes (n : nat) (acc : N) (l : bytes) : option (N * bytes) :=
+  match n with
+  | O => Some (acc, l)
+  | S n' =>
+      match l with
+      | [] => None                                    (* truncated tag or length *)
+      | b :: r =>
+          if 8388608 <=? acc then None                (* length too large (1<<23) *)
+          else
+            let acc' := acc * 256 + b in
+            if acc' =? 0 then None                    (* superfluous leading zeros *)
+            else len_bytes n' acc' r
+      end
+  end.
+
+Definition parse_len (l : bytes) : option (N * bytes) :=
+  match l with
+  | [] => None                                        (* truncated tag or length *)
+  | b :: r =>
+      if b <? 128 then Some (b, r)
+      else
+        let nb := b - 128 in
+        if nb =? 0 then None                          (* indefinite length *)
+        else
+          match len_bytes (N.to_nat nb) 0 r with
+          | Some (len, r') => if len <? 128 then None (* non-minimal length *) else Some (len, r')
+          | None => None
+          end
+  end.
+
+(* asn1.go:530 parseTagAndLength; returns the header and the bytes after it *)
+Definition parse_tag (l : bytes) : option (N * bool * N * bytes) :=
+  match l with
+  | [] => None
+  | b :: r =>
+      let t := b mod 32 in
+      if t =? 31 then
+        match base128 r with
+        | Some (t', r') => if t' <? 31 then None (* non-minimal tag *) else Some (b / 64, N.testbit b 5, t', r')
+        | None => None
+        end
+      else Some (b / 64, N.testbit b 5, t, r)
+  end.
+
+Definition parse_header (l : bytes) : option (hdr * bytes) :=
+  match parse_tag l with
+  | None => None
+  | Some (cls, comp, tag, r1) =>
+      match parse_len r1 with
+      | None => None
+      | Some (len, r2) => Some (mkhdr cls comp tag len, r2)
+      end
+  end.
+
+(* asn1.go:79 checkInteger *)
+Definition int_ok (c : bytes) : bool :=
+  match c with
+  | [] => false
+  | [_] => true
+  | b0 :: b1 :: _ => negb (((b0 =? 0) && (b1 <? 128)) || ((b0 =? 255) && (128 <=? b1)))
+  end.
+(* asn1.go:94 parseInt64 (the Go type int is 64 bits on the platforms of interest) *)
+Definition int64_ok (c : bytes) : bool := int_ok c && Nat.leb (length c) 8.
+
+(* asn1.go:195 parseBitString *)
+Definition bits_ok (c : bytes) : bool :=
+  match c with
+  | [] => false
+  | p :: rest =>
+      if 7 <? p then false
+      else match rest with
+           | [] => p =? 0
+           | _ => (last rest 0) mod (2 ^ p) =? 0
+           end
+  end.
+
+(* asn1.go:257 parseObjectIdentifier: one or more base-128 integers filling the content *)
+Fixpoint oid_arcs (fuel : nat) (l : bytes) : bool :=
+  match l with
+  | [] => true
+  | _ =>
+      match fuel with
+      | O => false
+      | S f => match base128 l with Some (_, r) => oid_arcs f r | None => false end
+      end
+  end.
+Definition oid_ok (c : bytes) : bool :=
+  match c with [] => false | _ => oid_arcs (length c) c end.
+
+(* ---- the schema language: Go types as they occur in internal/asn1struct ---- *)
+Inductive schema : Type :=
+| SInt                       (* int *)
+| SBigInt                    (* *big.Int *)
+| SOctets                    (* []byte *)
+| SBits                      (* asn1.BitString *)
+| SOid                       (* asn1.ObjectIdentifier *)
+| SRaw                       (* asn1.RawValue *)
+| SSeq (fs : fields)         (* struct *)
+| SSeqOf (elem : schema)     (* []struct *)
+with fields : Type :=
+| FNil
+| FCons (s : schema) (optional : bool) (explicit : option N) (rest : fields).
+
+Definition is_raw (s : schema) : bool := match s with SRaw => true | _ => false end.
+
+(* common.go:151 getUniversalType: (matchAny, tag, compound) *)
+Definition utype (s : schema) : bool * N * bool :=
+  match s with
+  | SInt | SBigInt => (false, 2, false)
+  | SOctets => (false, 4, false)
+  | SBits => (false, 3, false)
+  | SOid => (false, 6, false)
+  | SRaw => (true, 0, false)
+  | SSeq _ | SSeqOf _ => (false, 16, true)
+  end.
+
+(* parseField, first half: header, then the explicit wrapper if the field has one (asn1.go:739-776) *)
+Inductive step := Fail | Skip | Enter (h : hdr) (after : bytes).
+
+Definition unwrap (raw opt : bool) (expl : option N) (bs : bytes) : step :=
+  match parse_header bs with
+  | None => Fail
+  | Some (h, after) =>
+      match expl with
+      | None => Enter h after
+      | Some n =>
+          match after with
+          | [] => Fail                                 (* explicit tag has no child — before the tag is compared *)
+          | _ =>
+              if (h_class h =? 2) && (h_tag h =? n) && ((h_len h =? 0) || h_comp h) then
+                if raw then Enter h after
+                else if 0 <? h_len h then
+                  (* the inner header is read from the enclosing bytes: the wrapper's own length is not used again *)
+                  match parse_header after with
+                  | None => Fail
+                  | Some (h2, after2) => Enter h2 after2
+                  end
+                else Fail                              (* zero length explicit tag was not an asn1.Flag *)
+              else if opt then Skip else Fail
+          end
+      end
+  end.
+
+(* parseField, second half: tag comparison and bounds (asn1.go:778-847) *)
+Inductive entered := EFail | ESkip | EIn (inner rest : bytes).
+
+Definition enter (any : bool) (ut : N) (uc : bool) (opt : bool) (h : hdr) (after : bytes) : entered :=
+  if (negb any && (negb (h_class h =? 0) || negb (h_tag h =? ut))) || (negb any && negb (Bool.eqb (h_comp h) uc))
+  then (if opt then ESkip else EFail)
+  else if N.of_nat (length after) <? h_len h then EFail      (* data truncated *)
+  else EIn (take (N.to_nat (h_len h)) after) (drop (N.to_nat (h_len h)) after).
+
+Definition locate (s : schema) (opt : bool) (expl : option N) (bs : bytes) : entered :=
+  match bs with
+  | [] => if opt then ESkip else EFail                       (* sequence truncated *)
+  | _ =>
+      match unwrap (is_raw s) opt expl bs with
+      | Fail => EFail
+      | Skip => ESkip
+      | Enter h after => match utype s with (any, ut, uc) => enter any ut uc opt h after end
+      end
+  end.
+
+(* parseSequenceOf, first pass (asn1.go:617-647) *)
+Definition norm_tag (t : N) : N :=
+  if (t =? 22) || (t =? 27) || (t =? 20) || (t =? 12) || (t =? 18) || (t =? 30) then 19
+  else if (t =? 24) || (t =? 23) then 23 else t.
+
+Fixpoint seqof_scan (any : bool) (ut : N) (uc : bool) (fuel : nat) (l : bytes) : bool :=
+  match l with
+  | [] => true
+  | _ =>
+      match fuel with
+      | O => false
+      | S f =>
+          match parse_header l with
+          | None => false
+          | Some (h, after) =>
+              if negb any && (negb (h_class h =? 0) || negb (Bool.eqb (h_comp h) uc) || negb (norm_tag (h_tag h) =? ut)) then false
+              else if N.of_nat (length after) <? h_len h then false
+              else seqof_scan any ut uc f (drop (N.to_nat (h_len h)) after)
+          end
+      end
+  end.
+
+(* parseSequenceOf, second pass (asn1.go:651-657): the elements one after the other *)
+Fixpoint seqof_elems (pf : bytes -> option bytes) (rest : bytes) (fuel : nat) (l : bytes) : option bytes :=
+  match l with
+  | [] => Some rest
+  | _ =>
+      match fuel with
+      | O => None
+      | S f => match pf l with Some l' => seqof_elems pf rest f l' | None => None end
+      end
+  end.
+
+(* parseField: [Some rest] = accepted, the field ends where [rest] begins *)
+Fixpoint parse_field (s : schema) (opt : bool) (expl : option N) (bs : bytes) {struct s} : option bytes :=
+  match locate s opt expl bs with
+  | EFail => None
+  | ESkip => Some bs
+  | EIn inner rest =>
+      match s with
+      | SInt => if int64_ok inner then Some rest else None
+      | SBigInt => if int_ok inner then Some rest else None
+      | SOctets => Some rest
+      | SRaw => Some rest
+      | SBits => if bits_ok inner then Some rest else None
+      | SOid => if oid_ok inner then Some rest else None
+      | SSeq fs =>
+          (* extra elements at the end of the SEQUENCE are allowed *)
+          match parse_fields fs inner with Some _ => Some rest | None => None end
+      | SSeqOf e =>
+          match utype e with
+          | (any, ut, uc) =>
+              if seqof_scan any ut uc (length inner) inner then
+                seqof_elems (parse_field e false None) rest (length inner) inner
+              else None
+          end
+      end
+  end
+with parse_fields (fs : fields) (bs : bytes) {struct fs} : option bytes :=
+  match fs with
+  | FNil => Some bs
+  | FCons s opt expl r =>
+      match parse_field s opt expl bs with
+      | Some bs' => parse_fields r bs'
+      | None => None
+      end
+  end.
+
+(* asn1.Unmarshal(d, &v) returns no error (callers here ignore the returned rest) *)
+Definition accepts (s : schema) (d : bytes) : bool :=
+  match parse_field s false None d with Some _ => true | None => false end.
+
+(* ================= internal/asn1struct ================= *)
+Definition req (s : schema) (r : fields) : fields := FCons s false None r.
+Definition opt (s : schema) (r : fields) : fields := FCons s true None r.
+Definition opt_explicit (n : N) (s : schema) (r : fields) : fields := FCons s true (Some n) r.
+
+(* pkix.go: AlgorithmIdentifier, PKIXPublicKey *)
+Definition s_algid : schema := SSeq (req SOid (opt SRaw FNil)).
+Definition s_pkix : schema := SSeq (req s_algid (req SBits FNil)).
+(* pkcs8.go *)
+Definition s_pkcs8 : schema := SSeq (req SInt (req s_algid (req SOctets FNil))).
+(* pkcs1.go *)
+Definition s_pkcs1pub : schema := SSeq (req SBigInt (req SInt FNil)).
+Definition s_prime : schema := SSeq (req SBigInt (req SBigInt (req SBigInt FNil))).
+Definition s_pkcs1priv : schema :=
+  SSeq (req SInt (req SBigInt (req SInt (req SBigInt (req SBigInt (req SBigInt
+       (opt SBigInt (opt SBigInt (opt SBigInt (opt (SSeqOf s_prime) FNil)))))))))).
+(* dsa.go *)
+Definition s_dsapriv : schema :=
+  SSeq (req SInt (req SBigInt (req SBigInt (req SBigInt (req SBigInt (req SBigInt FNil)))))).
+(* elliptic.go *)
+Definition s_fieldid : schema := SSeq (req SOid (req SRaw FNil)).
+Definition s_eccurve : schema := SSeq (req SOctets (req SOctets (opt SBits FNil))).
+Definition s_ecparams : schema :=
+  SSeq (req SInt (req s_fieldid (req s_eccurve (req SOctets (req SBigInt (opt SInt (opt SOid FNil))))))).
+Definition s_sec1 : schema :=
+  SSeq (req SInt (req SOctets (opt_explicit 0 SOid (opt_explicit 0 s_ecparams (opt_explicit 1 SBits FNil))))).
+
+(* ================= internal/file/der.go ================= *)
+(* the individual parsers, numbered as the hooks number them (not the trial order):
+   0 certificate, 1 PKCS#8, 2 PKIX (SubjectPublicKeyInfo), 3 PKCS#1 public, 4 SEC1 EC private,
+   5 PKCS#1 private, 6 DSA private *)
+Definition schema_of (i : nat) : option schema :=
+  match i with
+  | 1%nat => Some s_pkcs8 | 2%nat => Some s_pkix | 3%nat => Some s_pkcs1pub
+  | 4%nat => Some s_sec1 | 5%nat => Some s_pkcs1priv | 6%nat => Some s_dsapriv
+  | _ => None
+  end.
+
+Record lib := mklib {
+  l_cert : bytes -> result info;      (* parseCertificate = x509.ParseCertificate + getCertificateInfo *)
+  l_desc : nat -> bytes -> info;      (* what parser i reports once asn1.Unmarshal has accepted *)
+  l_generic : bytes -> info;          (* parseASN1Data *)
+  l_ecparams : bytes -> result info;  (* parseECParameters (PEM label only) *)
+  l_openssh : bytes -> result info    (* parseOpenSSHPrivateKey (PEM label only) *)
+}.
+
+Definition unknown_asn1 : info := Info (bs "unknown ASN.1 data") [] [].
+Definition unknown_pem : info := Info (bs "unknown PEM data") [] [].
+
+Definition parse_kind (L : lib) (i : nat) (d : bytes) : result info :=
+  match i with
+  | O => l_cert L d
+  | _ =>
+      match schema_of i with
+      | Some s => if accepts s d then Ok (l_desc L i d) else Err "asn1.Unmarshal"
+      | None => Err "no such parser"
+      end
+  end.
+
+(* der.go:20 parseDERData: the first parser that returns no error *)
+Fixpoint first_kind (L : lib) (order : list nat) (d : bytes) : result info :=
+  match order with
+  | [] => Ok unknown_asn1
+  | i :: rest =>
+      match parse_kind L i d with
+      | Ok x => Ok x
+      | Err _ => first_kind L rest d
+      | Panic p => Panic p
+      end
+  end.
+(* der.go:20-38 after the repair of C05-F2: the PKCS#1 public schema, which also accepts
+   {version, n, ...} for small n, is tried last *)
+Definition trial_order : list nat := [0; 1; 2; 4; 5; 6; 3]%nat.
+(* the order of the unrepaired code, kept so that its refutation stays checkable *)
+Definition trial_order_before : list nat := [0; 1; 2; 3; 4; 5; 6]%nat.
+Definition route_der (L : lib) (d : bytes) : result info := first_kind L trial_order d.
+
+(* parsers.go:29 ASN1File (never returns an error) *)
+Definition asn1_file (L : lib) (d : bytes) : result info :=
+  match route_der L d with
+  | Ok i => if bytes_eqb (i_desc i) (i_desc unknown_asn1) then Ok (l_generic L d) else Ok i
+  | Err e => Err e
+  | Panic p => Panic p
+  end.
+
+(* parsers.go:45 Base64ASN1File *)
+Definition b64_file (L : lib) (text : bytes) : result info :=
+  match decode_any text with
+  | Ok d => asn1_file L d
+  | Err e => Err e
+  | Panic p => Panic p
+  end.
+Definition route_b64 := b64_file.
+
+(* ================= internal/file/pem.go ================= *)
+(* strings.ToUpper as far as the comparison with the ASCII labels can tell: ASCII letters,
+   and the two non-ASCII runes whose upper case is ASCII (U+0131 -> I, U+017F -> S).
+   Every other non-ASCII byte is kept, so the result cannot equal an ASCII label. *)
+Fixpoint to_upper_go (l : bytes) : bytes :=
+  match l with
+  | 196 :: 177 :: r => 73 :: to_upper_go r
+  | 197 :: 191 :: r => 83 :: to_upper_go r
+  | c :: r => to_upper_ascii c :: to_upper_go r
+  | [] => []
+  end.
+
+Definition or_unknown_pem (r : result info) : result info :=
+  match r with
+  | Ok i => Ok i
+  | Err _ => Ok unknown_pem
+  | Panic p => Panic p
+  end.
+
+Definition label_parser (L : lib) (u : bytes) : option (bytes -> result info) :=
+  if bytes_eqb u (bs "CERTIFICATE") || bytes_eqb u (bs "TRUSTED CERTIFICATE") then Some (parse_kind L 0)
+  else if bytes_eqb u (bs "RSA PUBLIC KEY") then Some (parse_kind L 3)
+  else if bytes_eqb u (bs "PUBLIC KEY") then Some (parse_kind L 2)
+  else if bytes_eqb u (bs "PRIVATE KEY") then Some (parse_kind L 1)
+  else if bytes_eqb u (bs "EC PRIVATE KEY") then Some (parse_kind L 4)
+  else if bytes_eqb u (bs "EC PARAMETERS") then Some (l_ecparams L)
+  else if bytes_eqb u (bs "RSA PRIVATE KEY") then Some (parse_kind L 5)
+  else if bytes_eqb u (bs "DSA PRIVATE KEY") then Some (parse_kind L 6)
+  else if bytes_eqb u (bs "OPENSSH PRIVATE KEY") then Some (l_openssh L)
+  else None.
+
+(* pem.go:10 parsePEMBlock *)
+Definition parse_pem_block (L : lib) (typ body : bytes) : result info :=
+  match label_parser L (to_upper_go typ) with
+  | Some p => or_unknown_pem (p body)
+  | None => Ok unknown_pem
+  end.
+
+Fixpoint map_result {A B} (f : A -> result B) (l : list A) : result (list B) :=
+  match l with
+  | [] => Ok []
+  | x :: r =>
+      match f x with
+      | Ok y => match map_result f r with Ok ys => Ok (y :: ys) | Err e => Err e | Panic p => Panic p end
+      | Err e => Err e
+      | Panic p => Panic p
+      end
+  end.
+
+(* parsers.go:90 PEMFile, given the blocks that the loop over pem.Decode meets, in order *)
+Definition is_pgp_type (typ : bytes) : bool := prefix_of (bs "PGP ") typ.
+Definition pem_file (L : lib) (blocks : list (bytes * bytes)) : result info :=
+  match map_result (fun b => parse_pem_block L (fst b) (snd b))
+                   (filter (fun b => negb (is_pgp_type (fst b))) blocks) with
+  | Ok [] => Err "no valid PEM blocks"
+  | Ok [i] => Ok i
+  | Ok infos => Ok (Info (bs "multiple PEM blocks") [] infos)
+  | Err e => Err e
+  | Panic p => Panic p
+  end.
+
+(* ================= internal/file/identifier.go ================= *)
+(* isBinaryASN1: one value, nothing after it *)
+Definition is_asn1 (d : bytes) : bool :=
+  match parse_header d with
+  | Some (h, after) => N.of_nat (length after) =? h_len h
+  | None => false
+  end.
+Definition is_b64_asn1 (text : bytes) : bool :=
+  match decode_any text with Ok d => is_asn1 d | _ => false end.
+Definition is_mixed_pem (d : bytes) : bool :=
+  match index_of (bs "-----BEGIN") d, index_of (bs "-----END") d with
+  | Some s, Some e => Nat.ltb s e
+  | _, _ => false
+  end.
+
+(* ================= what is assumed of the UUID sniffer ================= *)
+(* IsUUID = uuid.Parse(strings.TrimSpace(s)) succeeds.  The sniffer stays an oracle; the routes only
+   need a NECESSARY condition, read off google/uuid v1.6.0 Parse (accepted lengths 32, 36, 38, 45;
+   length 45 must start with "urn:uuid:" in any case; the others have hex digits at offsets 1..7)
+   and strings.TrimSpace (removes ASCII white space and UTF-8 encoded Unicode white space, i.e.
+   bytes >= 0x80, from both ends): the harness checks it against the real sniffer on every case. *)
+Definition is_hex (c : N) : bool :=
+  ((48 <=? c) && (c <=? 57)) || ((97 <=? c) && (c <=? 102)) || ((65 <=? c) && (c <=? 70)).
+Definition solid (c : N) : bool := (c <? 128) && negb (is_ascii_space c).
+Definition count_solid (l : bytes) : nat := length (filter solid l).
+Definition hex7 (d : bytes) : bool :=
+  match d with
+  | _ :: rest => Nat.leb 7 (length rest) && forallb is_hex (firstn 7 rest)
+  | [] => false
+  end.
+Definition uuid_possible (data : bytes) : bool :=
+  Nat.leb (count_solid data) 45 &&
+  match data with
+  | c0 :: _ => negb (solid c0) || (c0 =? 117) || (c0 =? 85) || hex7 data
+  | [] => false
+  end.
+Definition uuid_oracle_ok (sniff_other : bytes -> bytes -> bool) : Prop :=
+  forall data, sniff_other (bs "IsUUID") data = true -> uuid_possible data = true.
+
+(* ================= well-formed objects of each kind ================= *)
+(* the children of the outer SEQUENCE; the element after the first one; the content of the first one *)
+Definition seq_inner (d : bytes) : option bytes :=
+  match locate (SSeq FNil) false None d with EIn inner _ => Some inner | _ => None end.
+Definition next (l : bytes) : bytes :=
+  match parse_header l with Some (h, after) => drop (N.to_nat (h_len h)) after | None => [] end.
+Definition content (l : bytes) : bytes :=
+  match parse_header l with Some (h, after) => take (N.to_nat (h_len h)) after | None => [] end.
+
+(* what the ASN.1 types say beyond what the Go structs check:
+   RSAPublicKey has exactly two elements; the DSA subprime q does not fit a Go int *)
+Definition side_cond (k : nat) (d : bytes) : bool :=
+  match seq_inner d with
+  | None => false
+  | Some inner =>
+      match k with
+      | 3%nat => match next (next inner) with [] => true | _ => false end
+      | 6%nat => Nat.ltb 8 (length (content (next (next inner))))
+      | _ => true
+      end
+  end.
+
+(* some byte is not a base64 character (true of every DER key: it contains a tag byte 02 or 06) *)
+Definition not_text (d : bytes) : bool := existsb (fun c => cls c =? cX) d.
+Definition starts_seq (d : bytes) : bool := match d with 48 :: _ => true | _ => false end.
+
+(* [d] is exactly one DER value and (kinds 1..6) is accepted by kind [k]'s struct; that it then
+   starts with the SEQUENCE tag and contains a non-base64 byte is a lemma (key_shape); for a
+   certificate, whose structure is the x509 oracle's business, both are asked for, and that one
+   of the bytes at offsets 1..7 is no hex digit (offset 1 is 0x81..0x83 in every real certificate) *)
+Definition der_of_kind (k : nat) (d : bytes) : bool :=
+  is_asn1 d && bytes_ok d &&
+  match k with
+  | O => starts_seq d && not_text d && negb (hex7 d)
+  | _ => match schema_of k with Some s => accepts s d && side_cond k d | None => false end
+  end.
+
+(* crypto/x509.ParseCertificate accepts the certificates and nothing else among these objects *)
+Definition cert_oracle_ok (L : lib) (k : nat) (d : bytes) : bool :=
+  match k, l_cert L d with
+  | O, Ok _ => true
+  | S _, Err _ => true
+  | _, _ => false
+  end.
+
+(* ================= the dispatcher instantiated with these routes ================= *)
+Section Routes.
+  Variable L : lib.
+  Variable pem_blocks : bytes -> list (bytes * bytes).   (* the loop over encoding/pem.Decode *)
+  Variable sniff_other : bytes -> bytes -> bool.         (* IsUUID, IsJWT *)
+  Variable parse_other : bytes -> bytes -> result info.  (* parsers of the other formats *)
+
+  Definition route_pem (text : bytes) : result info := pem_file L (pem_blocks text).
+
+  Definition sniff (n data : bytes) : bool :=
+    if bytes_eqb n (bs "IsASN1") then is_asn1 data
+    else if bytes_eqb n (bs "IsBase64ASN1") then is_b64_asn1 data
+    else if bytes_eqb n (bs "IsMixedPEM") then is_mixed_pem data
+    else sniff_other n data.
+
+  Definition parse (n data : bytes) : result info :=
+    if bytes_eqb n (bs "ASN1File") then asn1_file L data
+    else if bytes_eqb n (bs "Base64ASN1File") then b64_file L data
+    else if bytes_eqb n (bs "PEMFile") then route_pem data
+    else parse_other n data.
+
+  Definition inspect_in_table (t : list row) (name data : bytes) : result info :=
+    inspect_in sniff parse t name data.
+  Definition inspect_file (name data : bytes) : result info := inspect_in_table table name data.
+
+  (* cmd/decipher/main.go: [Some path] = a file argument, [None] = standard input
+     (os.Stdin.Name() is "/dev/stdin").  Inspect's error paths are not modelled: the
+     files here are regular and readable. *)
+  Definition stdin_name : bytes := bs "/dev/stdin".
+  Definition cli (arg : option bytes) (data : bytes) : result bytes :=
+    match arg with
+    | Some path =>
+        match inspect_file path data with
+        | Ok i => Ok (report path i)
+        | Err e => Err e
+        | Panic p => Panic p
+        end
+    | None =>
+        match inspect_file stdin_name data with
+        | Ok i => Ok (print_info i 0)
+        | Err e => Err e
+        | Panic p => Panic p
+        end
+    end.
+End Routes.
+
+(* ================= what the routes need from the format table ================= *)
+(* boolean, re-checked on the regenerated table by an instance lemma (T1) *)
+Definition pattern_exact (p : bytes) : bool :=
+  negb (contains [42] p) && negb (has_prefix [42] p) && negb (has_suffix [42] p)
+  && bytes_eqb (trim_both 42 p) p && negb (bytes_eqb p [42]).
+Definition magic_avoids (c : N) (m : bytes) : bool :=
+  match m with x :: _ => negb (x =? c) | [] => false end.
+Definition no_sniffer (r : row) : bool := match r_sniffer r with [] => true | _ => false end.
+Definition sniffer_row (sn pa : bytes) (r : row) : bool :=
+  match r_patterns r, r_magics r with
+  | [], [] => bytes_eqb (r_sniffer r) sn && bytes_eqb (r_parser r) pa
+  | _, _ => false
+  end.
+Fixpoint drop_while {A} (f : A -> bool) (l : list A) : list A :=
+  match l with
+  | x :: r => if f x then drop_while f r else l
+  | [] => []
+  end.
+(* name patterns are exact names; no magic starts with '0' (raw DER SEQUENCE) or 'M' (its base64);
+   the first rows that have a sniffer are IsUUID, then IsBase64ASN1/Base64ASN1File, then IsASN1/ASN1File *)
+Definition routes_table_ok (t : list row) : bool :=
+  forallb (fun r => forallb pattern_exact (r_patterns r)) t
+  && forallb (fun r => forallb (magic_avoids 48) (r_magics r) && forallb (magic_avoids 77) (r_magics r)) t
+  && match drop_while no_sniffer t with
+     | r1 :: r2 :: r3 :: _ =>
+         sniffer_row (bs "IsUUID") (r_parser r1) r1
+         && sniffer_row (bs "IsBase64ASN1") (bs "Base64ASN1File") r2
+         && sniffer_row (bs "IsASN1") (bs "ASN1File") r3
+     | _ => false
+     end.
+(* the base name of [name] is one of the table's name patterns *)
+Definition reserved_in (t : list row) (name : bytes) : bool :=
+  match name with
+  | [] => false
+  | _ => existsb (fun r => existsb (bytes_eqb (basename name)) (r_patterns r)) t
+  end.
+
+(* ---- the PEM signature row ---- *)
+(* compare a magic with the known beginning [a] of a file: decided as soon as the magic ends
+   (Some true) or a byte differs (Some false); undecided (None) when [a] ends first *)
+Fixpoint prefix_decided (m a : bytes) : option bool :=
+  match m, a with
+  | [], _ => Some true
+  | _ :: _, [] => None
+  | x :: m', y :: a' => if x =? y then prefix_decided m' a' else Some false
+  end.
+Definition decided (b : bool) (o : option bool) : bool :=
+  match o with Some x => Bool.eqb x b | None => false end.
+Fixpoint take_while {A} (f : A -> bool) (l : list A) : list A :=
+  match l with
+  | x :: r => if f x then x :: take_while f r else []
+  | [] => []
+  end.
+Definition not_pem_row (r : row) : bool := negb (bytes_eqb (r_parser r) (bs "PEMFile")).
+(* the rows before the first PEMFile row are signature rows whose magics differ from the first
+   line of a PEM block with any of the given labels; the PEMFile row is a signature row with
+   a magic that is a prefix of that line *)
+Definition pem_table_ok (heads : list bytes) (t : list row) : bool :=
+  forallb is_sig_row (take_while not_pem_row t)
+  && forallb (fun x => forallb (fun m => forallb (fun a => decided false (prefix_decided m a)) heads) (r_magics x))
+             (take_while not_pem_row t)
+  && match drop_while not_pem_row t with
+     | r :: _ => is_sig_row r
+                 && existsb (fun m => forallb (fun a => decided true (prefix_decided m a)) heads) (r_magics r)
+     | [] => false
+     end
+  && no_wildcards t.
+
+(* ================= presentations ================= *)
+Definition eol (crlf : bool) : bytes := if crlf then [13; 10] else [10].
+
+(* base64 text: any of the four encodings, wrapped or not, optionally ending in a line break *)
+Definition b64_text (e : enc) (w : nat) (crlf trail : bool) (d : bytes) : bytes :=
+  wrap w crlf (encode e d) ++ (if trail then eol crlf else []).
+
+(* a PEM block as OpenSSL and encoding/pem write it, between surrounding text *)
+Definition pem_text (label d : bytes) (crlf : bool) (pre post : bytes) : bytes :=
+  pre ++ bs "-----BEGIN " ++ label ++ bs "-----" ++ eol crlf
+      ++ wrap 64 crlf (encode Std d) ++ eol crlf
+      ++ bs "-----END " ++ label ++ bs "-----" ++ eol crlf ++ post.
+
+Definition pem_head (label : bytes) : bytes := bs "-----BEGIN " ++ label ++ bs "-----".
+
+(* the object kinds of the property and their PEM labels *)
+Definition label_of (i : nat) : bytes :=
+  match i with
+  | 0%nat => bs "CERTIFICATE" | 1%nat => bs "PRIVATE KEY" | 2%nat => bs "PUBLIC KEY"
+  | 3%nat => bs "RSA PUBLIC KEY" | 4%nat => bs "EC PRIVATE KEY" | 5%nat => bs "RSA PRIVATE KEY"
+  | _ => bs "DSA PRIVATE KEY"
+  end.
+
+(* ---- the format table before the repair of C05-F1: IsASN1/ASN1File was tried before
+   IsBase64ASN1/Base64ASN1File.  Kept selectable so that the refutation stays checkable. ---- *)
+Fixpoint swap_rows (a b : bytes) (t : list row) : list row :=
+  match t with
+  | x :: rest =>
+      match rest with
+      | y :: r =>
+          if bytes_eqb (r_parser x) a && bytes_eqb (r_parser y) b then y :: x :: r
+          else x :: swap_rows a b rest
+      | [] => t
+      end
+  | [] => []
+  end.
+Definition table_before : list row := swap_rows (bs "Base64ASN1File") (bs "ASN1File") table.
+
+Definition pem_heads : list bytes := map (fun k => pem_head (label_of k)) (seq 0 7).
